@@ -131,6 +131,11 @@ def expected_read(writer, value):
     return value
 
 
+# the subclasses of OSError that the operating system really reports for open / write / close / rename - a handler may single one out
+ERRNO_FLAVOURS = {"PermissionError": "EACCES", "FileNotFoundError": "ENOENT", "FileExistsError": "EEXIST", "IsADirectoryError": "EISDIR",
+                  "InterruptedError": "EINTR", "BlockingIOError": "EAGAIN", "TimeoutError": "ETIMEDOUT"}
+
+
 class Injected(OSError):
     pass
 
@@ -149,6 +154,9 @@ class Injector:
         self.fired = None      # (op name, bytes of the chunk prefix that reached the file)
 
     def _exc(self):
+        if self.exc in ERRNO_FLAVOURS:
+            import errno
+            return getattr(builtins, self.exc)(getattr(errno, ERRNO_FLAVOURS[self.exc]), "injected")
         return Injected("injected") if self.exc == "OSError" else InjectedBase("injected")
 
     def op(self, name, data, do, do_prefix=None):
